@@ -118,6 +118,7 @@ def storeMatches (st : Store) (db : Db) : Bool :=
 def fromSize (st : Store) : From → Nat
   | .table t => (st.getD t default).rows.length + 1
   | .join _ l r _ => fromSize st l * fromSize st r
+  | .derived f _ _ => fromSize st f
 
 def planDefects (flags : List String) : Plan.Defects :=
   { joinCommuteKeepsIndices := flags.contains "joinCommuteKeepsIndices"
@@ -214,6 +215,16 @@ def showExprW : Expr → List String
   | .isNull n e => (if n then "notnull" else "isnull") :: showExprW e
   | .between n e lo hi => (if n then "nbtw" else "btw") :: (showExprW e ++ showExprW lo ++ showExprW hi)
   | .inList n e xs => ((if n then "nin" else "in") ++ toString xs.length) :: (showExprW e ++ showExprsW xs)
+  | .caseWhen parts => s!"case{parts.length / 2}" :: showCaseW parts
+  | .caseOf x parts => s!"casex{parts.length / 2}" :: (showExprW x ++ showCaseW parts)
+  | .strFn f e =>
+    (match f with | .upper => "upper" | .lower => "lower" | .length => "length" | .ltrim => "ltrim" | .rtrim => "rtrim")
+      :: showExprW e
+  | .concat a b => "cat" :: (showExprW a ++ showExprW b)
+def showCaseW : List Expr → List String
+  | [] => ["noelse"]
+  | [e] => "else" :: showExprW e
+  | c :: r :: rest => showExprW c ++ showExprW r ++ showCaseW rest
 def showExprsW : List Expr → List String
   | [] => []
   | e :: es => showExprW e ++ showExprsW es
